@@ -193,6 +193,7 @@ pub fn property() -> Property {
             name: "preview-vs-real",
             rule: "see property rule",
             cases: (2_000_000, 6_000_000),
+            fuzz_decode: Some(crate::fuzzdec::c18_case),
             strategy,
             check,
             required_classes: &["both-ok", "both-err", "ptype<0x0100", "ptype-rejected-range", "buffer>4097", "ctx-at-end", "ctx-beyond", "state-no-substitution", "state-may-substitute"],
